@@ -6,7 +6,10 @@
 (*                                                                                            *)
 (* Import structure S (what importlab hands to deps_from_import_graph, SCCs collapsed):       *)
 (*   S.kind[f]   kind of file f \in 1..N: "Local" | "Direct" | "System" | "Builtin" | "Stub"  *)
-(*               ("Stub" = a .pyi/.pytd file in the import graph)                             *)
+(*               | "SysExt"   ("Stub" = a .pyi/.pytd file in the import graph; "SysExt" = a    *)
+(*               file of System provenance whose module name starts with pytype_extensions.,   *)
+(*               pytype's own runtime helper package: get_module_action gives it a real infer  *)
+(*               step, every other System/Builtin module gets the default stub)                *)
 (*   S.req[f]    f is one of the files requested for checking (conf.inputs)                   *)
 (*   S.grp[f]    index of the graph node (SCC) of f; nodes 1..K are numbered dependencies      *)
 (*               first (the order in which deps_from_import_graph visits them); the files of   *)
@@ -28,7 +31,12 @@ Imports(m, p) == <<"imports", m, p>>
 NF(S) == Len(S.kind)
 NG(S) == Len(S.gdeps)
 IsStub(S, f) == S.kind[f] = "Stub"
-IsDefaultKind(S, f) == S.kind[f] \in {"Builtin", "System"}
+Kinds == {"Local", "Direct", "System", "Builtin", "Stub", "SysExt"}
+(* importlab's provenance class of a kind (what `module.kind` is in pytype_runner) *)
+ProvenanceOf(kind) == IF kind = "SysExt" THEN "System" ELSE IF kind = "Stub" THEN "Local" ELSE kind
+(* the default stub replaces a module that importlab resolved outside the project, EXCEPT the  *)
+(* pytype_extensions.* modules: those are analysed like a Local module that was not requested  *)
+IsDefaultKind(S, f) == ProvenanceOf(S.kind[f]) \in {"Builtin", "System"} /\ S.kind[f] # "SysExt"
 Ids(n) == [x \in 1 .. n |-> x]
 FilesOf(S, g) == SelectSeq(Ids(NF(S)), LAMBDA f : S.grp[f] = g)
 Cat(ss) == IF ss = <<>> THEN <<>> ELSE FlattenSeq(ss)
@@ -36,6 +44,7 @@ Injective(q) == \A x, y \in DOMAIN q : x # y => q[x] # q[y]
 
 WellFormed(S) ==
   /\ Len(S.req) = NF(S) /\ Len(S.grp) = NF(S)
+  /\ \A f \in 1 .. NF(S) : S.kind[f] \in Kinds
   /\ \A f \in 1 .. NF(S) : S.grp[f] \in 1 .. NG(S)
   /\ \A f \in 1 .. NF(S) - 1 : S.grp[f + 1] \in {S.grp[f], S.grp[f] + 1}
   /\ (NF(S) > 0 => S.grp[1] = 1 /\ S.grp[NF(S)] = NG(S))
@@ -178,6 +187,12 @@ OneCheck(S, AP) ==
 
 TargetsProduced(AP) == \A s \in DOMAIN AP : Targets(AP, s) \subseteq {DEFAULT} \cup Outs(AP)
 
+(* every stub a step reads is ordered before it by the declared dependencies (the static form  *)
+(* of NoReadBeforeWrite: a produced target outside the closure can still be missing when the   *)
+(* reader starts, because nothing outside the closure has to run first)                        *)
+UndeclaredReads(AP) ==
+  UNION {{<<s, f>> : f \in (Targets(AP, s) \cap Outs(AP)) \ DepClosure(AP, s)} : s \in DOMAIN AP}
+
 (* the files of the group of m that are analysed (modules of the sorted_sources entry) *)
 GroupSources(S, m) == {f \in 1 .. NF(S) : S.grp[f] = S.grp[m] /\ ~IsStub(S, f)}
 TwoPass(S, m) == Cardinality(GroupSources(S, m)) > 1
@@ -242,9 +257,38 @@ StaticFails(S, AP) ==
   \cup (IF WellShaped(AP) THEN {} ELSE {"shape"})
   \cup (IF OneCheck(S, AP) THEN {} ELSE {"onecheck"})
   \cup (IF TargetsProduced(AP) THEN {} ELSE {"targets"})
+  \cup (IF UndeclaredReads(AP) = {} THEN {} ELSE {"undeclared-read"})
   \cup (IF FirstPassExists(S, AP) THEN {} ELSE {"firstpass"})
   \cup (IF SecondPassFeeds(S, AP) THEN {} ELSE {"feeds"})
   \cup (IF Covers(S, AP) THEN {} ELSE {"covers"})
   \cup (IF CoversTransitively(S, AP) THEN {} ELSE {"covers-transitive"})
   \cup (IF FirstPassLeaks(S, AP) = {} THEN {} ELSE {"leak"})
+
+-----------------------------------------------------------------------------
+(* Paths.  "Paths containing spaces, colons or dollar signs survive into the plan unchanged":  *)
+(* the three directories a plan mentions (project root -> inputs; output directory -> outputs,  *)
+(* declared dependencies, imports files, imports-map targets; a system directory -> inputs of   *)
+(* pytype_extensions steps) are named from this family.  ninja's lexer gives `$` a meaning that *)
+(* depends on the NEXT character and ends a path at an unescaped space or colon, so the family  *)
+(* has every ordered pair of special characters adjacent once, and every special character      *)
+(* first and last in a name (i.e. next to the path separator).                                  *)
+Specials == <<" ", ":", "$">>
+PairName(a, b) == "p" \o Specials[a] \o Specials[b] \o "q"
+LeadName(a) == Specials[a] \o "h"
+TailName(a) == "t" \o Specials[a]
+AdvNames ==
+  [x \in 1 .. 9 |-> PairName(((x - 1) \div 3) + 1, ((x - 1) % 3) + 1)]
+    \o [a \in 1 .. 3 |-> LeadName(a)] \o [a \in 1 .. 3 |-> TailName(a)]
+NAdv == Len(AdvNames)
+(* the k-th assignment of names to the three roles: every name occurs once in every role, and   *)
+(* the three names of an assignment are distinct (they are siblings in one directory)           *)
+AdvTriple(k) == [root |-> AdvNames[(k % NAdv) + 1], out |-> AdvNames[((k + 5) % NAdv) + 1],
+                 sys |-> AdvNames[((k + 10) % NAdv) + 1]]
+AdvTriples == [x \in 1 .. NAdv |-> AdvTriple(x - 1)]
+PlainTriple == [root |-> "root", out |-> "out", sys |-> "sys"]
+(* the shell that runs a step's command line splits words at spaces and expands `$`; a colon    *)
+(* means nothing to it (used for the attribution of the known shell-quoting finding)            *)
+ShellSensitiveNames ==
+  {AdvNames[x] : x \in {y \in 1 .. NAdv : \E a \in {1, 3}, b \in 1 .. 3 :
+                          AdvNames[y] \in {PairName(a, b), PairName(b, a), LeadName(a), TailName(a)}}}
 =============================================================================
